@@ -105,7 +105,11 @@ pub struct RefDesc {
     pub kind: String,         // registered | project | control | control_named | original
     pub name: Vec<u8>,
     pub name_unicode: String,
+    /// the LIBIDs of the record in file order (registered: 1; control: twiddled, extended; original: original,
+    /// twiddled, extended); missing ones are the standard OLE Automation libid
+    pub libs: Vec<Vec<u8>>,
 }
+pub const STD_LIBID: &[u8] = b"*\\G{00020430-0000-0000-C000-000000000046}#2.0#0#C:\\Windows\\System32\\stdole2.tlb#OLE Automation";
 pub struct ProjectDesc {
     pub compat: bool,
     pub codepage: u16,
@@ -137,8 +141,9 @@ pub fn dir_stream(p: &ProjectDesc) -> Vec<u8> {
     for r in &p.refs {
         rec(&mut o, 0x0016, &r.name);                               // REFERENCENAME
         rec(&mut o, 0x003E, &utf16(&r.name_unicode));
-        let libid = b"*\\G{00020430-0000-0000-C000-000000000046}#2.0#0#C:\\Windows\\System32\\stdole2.tlb#OLE Automation".to_vec();
-        let control = |o: &mut Vec<u8>, named: bool| {
+        let lib = |k: usize| -> Vec<u8> { r.libs.get(k).cloned().unwrap_or_else(|| STD_LIBID.to_vec()) };
+        let control = |o: &mut Vec<u8>, named: bool, first: usize| {
+            let libid = lib(first);
             let mut body = Vec::new();
             body.extend_from_slice(&(libid.len() as u32).to_le_bytes());
             body.extend_from_slice(&libid);
@@ -152,6 +157,7 @@ pub fn dir_stream(p: &ProjectDesc) -> Vec<u8> {
                 rec(o, 0x003E, &utf16("ExtName"));
             }
             o.extend_from_slice(&0x0030u16.to_le_bytes());
+            let libid = lib(first + 1);
             let mut ext = Vec::new();
             ext.extend_from_slice(&(libid.len() as u32).to_le_bytes());
             ext.extend_from_slice(&libid);
@@ -164,6 +170,7 @@ pub fn dir_stream(p: &ProjectDesc) -> Vec<u8> {
         };
         match r.kind.as_str() {
             "registered" => {
+                let libid = lib(0);
                 let mut body = Vec::new();
                 body.extend_from_slice(&(libid.len() as u32).to_le_bytes());
                 body.extend_from_slice(&libid);
@@ -187,11 +194,11 @@ pub fn dir_stream(p: &ProjectDesc) -> Vec<u8> {
                 o.extend_from_slice(&(body.len() as u32).to_le_bytes());
                 o.extend_from_slice(&body);
             }
-            "control" => control(&mut o, false),
-            "control_named" => control(&mut o, true),
+            "control" => control(&mut o, false, 0),
+            "control_named" => control(&mut o, true, 0),
             _ => {
-                rec(&mut o, 0x0033, &libid);                         // REFERENCEORIGINAL
-                control(&mut o, false);
+                rec(&mut o, 0x0033, &lib(0));                        // REFERENCEORIGINAL
+                control(&mut o, false, 1);
             }
         }
     }
